@@ -2,6 +2,7 @@
 #define MON_NAME "c09_pure"
 #include "mon.h"
 #include <cstring>
+#include <memory>
 
 static const double PI = 3.14159265358979323846;
 typedef typename MonG::Jacobian MJ;
@@ -17,6 +18,13 @@ template <class A, class B> static bool bitEq(const A& a, const B& b) {
 }
 static uint64_t H = 1469598103934665603ULL;   // running digest of golden results (FNV-1a over the bits)
 template <class A> static void digest(const A& a) { for (int j = 0; j < a.cols(); ++j) for (int i = 0; i < a.rows(); ++i) { MonS x = a(i, j); unsigned char b[sizeof(MonS)]; std::memcpy(b, &x, sizeof b); for (unsigned char c : b) { H ^= c; H *= 1099511628211ULL; } } }
+
+// bits of any result kind (group, tangent, Eigen object), appended to a vector
+typedef std::vector<MonS> Bits;
+template <class D> static void app(Bits& v, const Eigen::MatrixBase<D>& m) { for (int j = 0; j < m.cols(); ++j) for (int i = 0; i < m.rows(); ++i) v.push_back(m(i, j)); }
+template <class D> static void app(Bits& v, const manif::LieGroupBase<D>& x) { app(v, x.coeffs()); }
+template <class D> static void app(Bits& v, const manif::TangentBase<D>& x) { app(v, x.coeffs()); }
+static bool sameBitsV(const Bits& a, const Bits& b) { return a.size() == b.size() && (a.empty() || std::memcmp(a.data(), b.data(), a.size() * sizeof(MonS)) == 0); }
 
 struct Ops {
   const MonG& X; const MonG& Y; const MonT& t; const MonT& s; const typename MonG::Vector& p;
@@ -173,6 +181,25 @@ void runCase(long long i, Prng& r, const Args& a) {
     u = t; u = -u; MonT u3 = -t; ok = ok && bitEq(u.coeffs(), u3.coeffs());
     LOG.cell("aliasing/" + GN(), ok ? 0 : 1);
     if (!ok) viol("aliased-assignment-differs");
+  }
+  // results are values: whatever an operation returns (held by `auto`, as client code does) must not change when the operands are
+  // modified or destroyed afterwards -- an expression template or a view of an operand leaking out of the API would
+  {
+    std::unique_ptr<MonG> A(new MonG(X)), B(new MonG(Y)); std::unique_ptr<MonT> u(new MonT(t)), w(new MonT(s)); std::unique_ptr<typename MonG::Vector> q(new typename MonG::Vector(p));
+    auto r1 = A->inverse(); auto r2 = A->log(); auto r3 = A->compose(*B); auto r4 = A->between(*B); auto r5 = A->rplus(*u); auto r6 = A->lplus(*u);
+    auto r7 = A->rminus(*B); auto r8 = A->lminus(*B); auto r9 = A->act(*q); auto r10 = A->adj(); auto r11 = u->exp(); auto r12 = u->hat();
+    auto r13 = u->rjac(); auto r14 = u->ljac(); auto r15 = u->smallAdj(); auto r16 = *u + *w; auto r17 = -(*u); auto r18 = *u * MonS(2); auto r19 = *A * *B;
+    auto r20 = *A + *u; auto r21 = *A - *B; auto r22 = u->rjacinv(); auto r23 = u->ljacinv(); auto r24 = u->bracket(*w); auto r25 = *u + *A; auto r26 = *u - *w; auto r27 = *u / MonS(2);
+    auto r28 = u->plus(*w); auto r29 = u->minus(*w); auto r30 = A->plus(*u); auto r31 = A->minus(*B); auto r32 = u->retract(); auto r33 = A->lift(); auto r34 = MonS(3) * *u;
+    auto all = [&](Bits& v) { app(v, r1); app(v, r2); app(v, r3); app(v, r4); app(v, r5); app(v, r6); app(v, r7); app(v, r8); app(v, r9); app(v, r10); app(v, r11); app(v, r12); app(v, r13); app(v, r14);
+                              app(v, r15); app(v, r16); app(v, r17); app(v, r18); app(v, r19); app(v, r20); app(v, r21); app(v, r22); app(v, r23); app(v, r24); app(v, r25); app(v, r26); app(v, r27);
+                              app(v, r28); app(v, r29); app(v, r30); app(v, r31); app(v, r32); app(v, r33); app(v, r34); };
+    Bits before, mid, after; all(before);
+    A->setIdentity(); B->setIdentity(); u->setZero(); w->setZero(); q->setZero(); all(mid);
+    A.reset(); B.reset(); u.reset(); w.reset(); q.reset(); all(after);   // under ASan a dangling reference into an operand is a heap-use-after-free here
+    bool ok = sameBitsV(before, mid) && sameBitsV(before, after);
+    LOG.cell("results-are-values/" + GN(), ok ? 0 : 1);
+    if (!ok) viol("result-changes-when-operand-is-modified-later");
   }
   // determinism across "arbitrary other activity": in the middle and at the end of the run the golden cases reproduce the same bits
   if (i == a.n / 2 || i == a.n - 1 || a.only >= 0) {
